@@ -80,6 +80,7 @@ class Tracer:
         self.cur_recv: dict[int, tuple] = {}       # thread ident -> (receiver, message) inside _receive_signal
         self.in_disc: set[int] = set()
         self.cur_connect: dict[int, tuple] = {}
+        self.stopping: dict[int, int] = {}
         self.dead: set[int] = set()
         self.pubseq: dict[int, int] = {}           # tid -> next publication number
         self.pub_of_uid: dict[int, tuple] = {}     # uid -> (c, t, seq, ob, sg)
@@ -390,6 +391,10 @@ class Tracer:
                     T.cur_send[ident] = message
                     if type(message).__name__ == "QMI_SignalMessage" and message.args:
                         T.ev("tx", T.cid(self.context_name), message.args[0], message.destination_address.context_id)
+                    if self._thread is None or self._socket_manager is None:
+                        # the router is being stopped: send_message raises before it takes the socket-manager lock;
+                        # the model has the same step (`sendChk` with `routerDown`) in the lock class S
+                        T.on_lock("S", T.cid(self.context_name))
                 try:
                     return orig(self, message)
                 finally:
@@ -492,6 +497,28 @@ class Tracer:
                     T.in_disc.discard(ident)
             return disconnect_from_peer
         wrap(MS._SocketManager, "disconnect_from_peer", mk_disc)
+
+        def mk_router_stop(orig):
+            def stop(self):
+                if T.active:
+                    T.stopping[_rt.get_ident()] = T.cid(self.context_name)
+                try:
+                    return orig(self)
+                finally:
+                    T.stopping.pop(_rt.get_ident(), None)
+            return stop
+        wrap(MS.MessageRouter, "stop", mk_router_stop)
+
+        def mk_run_in_thread(orig):
+            def run_in_thread(self, func):
+                r = orig(self, func)
+                c = T.stopping.pop(_rt.get_ident(), None)
+                if c is not None and T.active:
+                    # MessageRouter.stop: `close_all` is queued; the next statement sets `_socket_manager = None`
+                    T.emit(f"stopreq {c}", "ok stop-requested", "full", c)
+                return r
+            return run_in_thread
+        wrap(MS._EventDrivenThread, "run_in_thread", mk_run_in_thread)
 
         def mk_close_all(orig):
             def close_all(self):
